@@ -19,12 +19,12 @@ Inductive json :=
 
 (* quirk flags: true = what the code does, false = what the property demands *)
 Record oquirks := {
-  q_sarif_unsanitized : bool;            (* SARIF emits file / message raw, JSON and text pass them through _sanitize_string *)
-  q_syntax_line_zero : bool;             (* syntax-error violations get line `lineno or 0` (SARIF startLine 0) *)
+  q_sarif_unsanitized : bool;            (* SARIF leaves as the source has them (true) / file and message forced through _sanitize_string (false) *)
+  q_syntax_line_zero : bool;             (* syntax-error default line as the source has it, `lineno or K` (true) / 1 (false) *)
   q_text_omit_zero : bool;               (* text omits the line when 0 and the column when 0: `p:3` is ambiguous *)
   q_text_raw_newline : bool;             (* text prints newlines inside paths / messages raw *)
   q_group_missing_config_ignored : bool; (* `thailint --config missing.yaml <cmd>` runs with defaults instead of exit 2 *)
-  q_dry_empty_config_crashes : bool      (* `dry --config <empty file>` ends in handle_linting_error (exit 2) *)
+  q_dry_empty_config_crashes : bool      (* `dry --config <empty file>`: as the source has it, crash unless guarded (true) / never (false) *)
 }.
 Definition ideal : oquirks := Build_oquirks false false false false false false.
 
@@ -317,7 +317,9 @@ Definition usage_outcome (q : oquirks) (cmd : string) (c : uclass) : outcome :=
   | UBadProjectRoot => site "bad_project_root"
   | UBadInlineRules => site "bad_inline_rules"
   | UGroupMissingConfig => if q_group_missing_config_ignored q then OPerformed else site "group_config_error"
-  | UEmptyConfig => if q_dry_empty_config_crashes q && String.eqb cmd "dry" then site "linting_error" else OPerformed
+  | UEmptyConfig =>
+    (* flag on: as the source has it (Gen: is the result of yaml.safe_load guarded with `or {}`?) *)
+    if q_dry_empty_config_crashes q && negb dry_config_null_guard && String.eqb cmd "dry" then site "linting_error" else OPerformed
   end.
 
 (* what the property demands *)
